@@ -177,3 +177,43 @@ def t_eigh_out():
     err = abs(R.data).max()
     report('F-C08-1', err < 1e-10, 'UTPM.eigh(A, out=(l,Q)) with re-used buffers: residual |Q L Q^T - A| = %.2g' % err)
 t_eigh_out()
+
+
+def t_outer_pb():
+    W = numpy.array([[1., 2., 3.], [4., 5., 6.], [7., 8., 10.]])
+    x0 = numpy.array([1., 2., 3.]); y0 = numpy.array([-1., 0.5, 2.])
+    cg = CGraph(); x = Function(x0.copy()); y = Function(y0.copy())
+    f = algopy.sum(W * algopy.outer(x, y)); cg.trace_off()
+    cg.independentFunctionList = [x, y]; cg.dependentFunctionList = [f]
+    g = cg.gradient([x0, y0])
+    err = abs(g[1] - W.T.dot(x0)).max()
+    report('F-C03-7', err < 1e-12, 'gradient of sum(W*outer(x,y)) w.r.t. y vs W^T x (non-symmetric W): err %.2g' % err)
+t_outer_pb()
+
+
+def t_outer_shape():
+    x = UTPM(numpy.arange(1., 7.).reshape(2, 1, 3)); y = UTPM(numpy.arange(1., 5.).reshape(2, 1, 2))
+    try:
+        z = UTPM.outer(x, y)
+        ok = z.data.shape == (2, 1, 3, 2) and numpy.allclose(z.data[1, 0], numpy.outer(x.data[1, 0], y.data[0, 0]) + numpy.outer(x.data[0, 0], y.data[1, 0]))
+        ok = ok and UTPM.outer(x, numpy.array([3.])).data.shape == (2, 1, 3, 1)
+        msg = 'shape %s' % (z.data.shape,)
+    except Exception as e:
+        ok, msg = False, 'raised %s' % type(e).__name__
+    report('F-C07-1', ok, 'outer of a (3,) and a (2,) polynomial / a length-1 constant: %s' % msg)
+t_outer_shape()
+
+
+def t_dot_pb_vector():
+    A0 = numpy.array([[1., 2., 3.], [4., 5., 6.], [7., 8., 10.]]); x0 = numpy.array([1., -2., 0.5]); w = numpy.array([2., 3., 5.])
+    cg = CGraph(); A = Function(A0.copy()); x = Function(x0.copy())
+    f = algopy.sum(w * algopy.dot(A, x)); cg.trace_off()
+    cg.independentFunctionList = [A, x]; cg.dependentFunctionList = [f]
+    try:
+        g = cg.gradient([A0, x0])
+        err = abs(g[0] - numpy.outer(w, x0)).max()
+        msg = 'err %.2g' % err
+    except Exception as e:
+        err, msg = 1., 'raised %s' % type(e).__name__
+    report('F-C03-8', err < 1e-12, 'gradient of sum(w*dot(A,x)) w.r.t. the matrix A (vector x) vs outer(w,x): %s' % msg)
+t_dot_pb_vector()
